@@ -94,6 +94,11 @@ def _homonymize(shapes, rnd):
     a, b = rnd.choice(pairs)
     shapes = list(shapes)
     shapes[b[0]] = (shapes[b[0]][0], a[1])
+    # sometimes a third element of that name, in yet another section
+    third = [c for c in info if c[0] not in (a[0], b[0]) and c[2] not in (a[2], b[2])]
+    if third and rnd.random() < 0.5:
+        c = rnd.choice(third)
+        shapes[c[0]] = (shapes[c[0]][0], a[1])
     return shapes, {a[1]}
 
 
